@@ -136,6 +136,11 @@ def cut(fn, *args, expect=(), **kwargs):
         raise
     except TraceViolation as tv:
         raise Violation(tv.monitor, tv.detail)
+    except _contract_broken() as cb:
+        # a run-time contract bound on a real function (vt.monitor.contracts, thorough tier)
+        msg = str(cb)
+        name = msg.split(":\n", 1)[0].rsplit("\n", 1)[-1].strip() if ":\n" in msg else "contract"
+        raise Violation("contract-" + name.split(":")[0][:40], msg[:600]) from cb
     except expect as e:  # noqa
         return Raised(e)
     except InjectedWriteFailure:
@@ -157,6 +162,11 @@ def cut(fn, *args, expect=(), **kwargs):
         # the enclosing guarded call keeps its own count (the budget is per API call,
         # harness code between nested calls is not instrumented anyway)
         _steps["n"] = saved
+
+
+def _contract_broken():
+    mod = sys.modules.get("vt.monitor.contracts")
+    return mod.ContractBroken if mod is not None else ()
 
 
 def _name(fn):
